@@ -32,7 +32,8 @@ CLAIMED = {
             "zone, and every jiff answer (offset, DST flag, abbreviation, civil time) at the six probes around every "
             "transition of every zone is recomputed by TLC. Thorough covers all zones (installed, bundled, right/, "
             "synthetic slim+fat, 2000 generated POSIX strings) and every rule year to 9999.",
-            "Trusted: the independent TZif/POSIX readers in the harness, zic for synthetic zones, TLC. Known finding D8 "
+            "Trusted: the independent TZif/POSIX readers in the harness (checked on every run against tzcode's zdump -V for "
+            "the system zones, and the lookup operators model-checked in MC_TzLookup), zic for synthetic zones, TLC. Known finding D8 "
             "(cross-year POSIX rules) is listed in KNOWN_FINDINGS.txt.",
             "TLA+ definitional zone semantics; implementation traces validated by TLC", "DESIGN.md §5 C03"),
     "C04": ("model_checking",
